@@ -48,6 +48,13 @@ def _case(seed, i, tier):
     if i % 6 == 4 and not any("junk" in op for op in case["ops"]):
         # stratum: the GUI passes its whole options table; other rows may have been edited
         case["ops"][-2] = dict(case["ops"][-2], junk=dict(RS.JUNK_BENIGN))
+    if i % 12 == 6 and not mc:
+        # stratum: back to the defaults by passing a literally empty dict, from a state
+        # that is not the default one
+        pool = RS.settings_pool(case["workload"]["geometry"])
+        if not case["s0"] and not any(op.get("s") for op in case["ops"][:-2]):
+            case["s0"] = dict(pool[1 + (i // 12) % (len(pool) - 1)])
+        case["ops"][-2] = {"op": "regrid", "s": {}, "partial": True, "tag": "defaults"}
     if mc and not RS.has_method_change(case):
         case["ops"][-2]["s"]["nonorthogonal_spacing_method"] = (
             "poloidal_orthogonal_combined" if RS.method_of(case["s0"]) == "combined"
